@@ -615,6 +615,12 @@ func ruleLimitAutocut(r *Run, p string) {
 				if init, bound, isLoop := countedLoop(ph); isLoop && init >= 0 {
 					ok = boundIsLenOf(c, bound, "len(P0)")
 				}
+				// for i := k; i <= len(diff)-1; i++
+				if init, bound, isLoop := countedLoopIncl(ph); !ok && isLoop && init >= 0 {
+					if sub, isSub := bound.(*ssa.BinOp); isSub && sub.Op == token.SUB && c.S(sub.Y) == "c(1)" {
+						ok = boundIsLenOf(c, sub.X, "len(P0)")
+					}
+				}
 			}
 			if !ok {
 				bad = s + " at " + w.InstrPos(ret)
@@ -630,7 +636,11 @@ func ruleLimitAutocut(r *Run, p string) {
 			}
 			// or the traversal starts at 1: every diff[i-k] read is indexed by a counted loop variable with init ≥ 1
 			if ph, ok := in.(*ssa.Phi); ok {
-				if init, _, isLoop := countedLoop(ph); isLoop && init >= 1 {
+				init, _, isLoop := countedLoop(ph)
+				if !isLoop {
+					init, _, isLoop = countedLoopIncl(ph)
+				}
+				if isLoop && init >= 1 {
 					indexes := false
 					for _, ref := range *ph.Referrers() {
 						if _, ok := ref.(*ssa.IndexAddr); ok {
@@ -1539,12 +1549,9 @@ func ruleMerge(r *Run, p string) {
 	r.Check(okOut, rule, "merge:output", site, "one output per key of the score map with that key's score", "merged output is not built one-per-key from the score map")
 	if sr := w.Fn("sortResultsByScore"); sr != nil {
 		r.Analysed("sortResultsByScore")
-		for _, call := range callsIn(sr, func(cc *ssa.CallCommon) bool { return calleeName(cc) == "sort.Slice" }) {
-			cmp := closureArg(call.Common(), 1)
-			if cmp == nil {
-				continue
-			}
-			d, f, why := comparatorDirection(w, cmp)
+		for _, call := range callsIn(sr, func(cc *ssa.CallCommon) bool { return isSortCall(cc) }) {
+			// sort.Slice with a less literal, or slices.SortFunc with a three-way comparator (decided by evaluation)
+			d, f, why := sortDirection(w, call.Common())
 			if d == "" {
 				r.Und(rule, "merge:sort", w.InstrPos(call)+" sortResultsByScore", why)
 				continue
